@@ -45,11 +45,12 @@ class AliasMethod(Sampling):
     def _draw_with_u(self, uniform: float):
         """ALIAS sampling with pre-generated uniform variable"""
         ku = self.K * uniform
-        x = np.uint(ku)
+        x = int(ku)
         v = ku - x
         if v < self.q[x]:
             return x
-        return self.J[x]
+        # plain (signed) integer: the states are obtained by subtracting the pivot from this index
+        return int(self.J[x])
 
 
 def create_alias(probabilities):
